@@ -117,6 +117,14 @@ def run():
     prog = ctx.lib
     oblig.install_battery(rep, ctx, ["c02_battery", "c08_battery", "c04_battery", "c06_battery"])
     part_common.add(rep, prog, ["retention-count", "no-loss-no-dup", "atomic-subgroups", "patterns", "stale-filter", "mtime-check", "subgroup-args", "data-retained"], "C02", part_common.make_replayer(ctx))
+    # the staleness check itself (what partition's "mtime-check" relies on): result semantics and the instants compared
+    try:
+        from obligations import C04
+        C04.was_modified_obligations(rep, prog)
+    except Inconclusive as ex:
+        o = Obligation("was_modified", "E2 mirsym/z3")
+        o.verdict, o.detail = "inconclusive", str(ex)
+        rep.add(o)
     try:
         script_obligation(rep, prog)
     except Inconclusive as ex:
@@ -136,6 +144,14 @@ def run():
                      replayer=e1.fs_replayer("faults", FSOPS))
     from obligations import C05, C06
     C05.wrappers(rep)
+    # "max(1, n) replicas": n and the isolate roots come from the report header - resolved against the header's base directory
+    try:
+        from obligations import C08
+        C08.command_config_obligation(rep, ctx)
+    except Inconclusive as ex:
+        o = Obligation("get_command_config", "E2 mirsym/z3")
+        o.verdict, o.detail = "inconclusive", str(ex)
+        rep.add(o)
     # the retained path may be a symbolic link: what a hard link to it refers to
     try:
         from obligations import C05_e2
